@@ -251,7 +251,8 @@ pub fn run(ctx: &Ctx) -> Outcome {
     // ---- (ii)
     let runs = ctx.q(40u64, 2000);
     for i in 0..runs {
-        if !ctx.time_left() {
+        // (at most 40 % of the budget: the free-run part below needs its share)
+        if !ctx.time_left() || ctx.start.elapsed() > ctx.budget.mul_f64(0.4) {
             break;
         }
         let mut rng = Rng::derive(ctx.seed, 0xC08 + ctx.shard, i);
